@@ -41,7 +41,11 @@ def main():
             print("patch does not apply:", o)
             res["error"] = "patch does not apply: " + o
             return 2
-        shutil.copytree(os.path.join(V, "lean"), lean, symlinks=True)
+        # (builders may be compiling in /verif/lean: files can vanish under copytree; rsync tolerates that)
+        for _ in range(3):
+            rcc, oc = sh(["rsync", "-a", "--delete", os.path.join(V, "lean") + "/", lean + "/"])
+            if rcc in (0, 24):
+                break
         evid = "/var/tmp/seed-evid-" + tag
         env = dict(os.environ, VERIF_REPO=wt, VERIF_LEAN=lean, VERIF_EVIDENCE=evid)
         for p in props:
